@@ -134,7 +134,6 @@ pub(super) fn derive_schema(input: TokenStream) -> syn::Result<TokenStream> {
 
                     if field_attrs.serde.skip
                     || field_attrs.serde.skip_serializing
-                    || field_attrs.serde.skip_deserializing
                     {
                         continue
                     }
@@ -164,6 +163,7 @@ pub(super) fn derive_schema(input: TokenStream) -> syn::Result<TokenStream> {
                     let is_optional_field = inner_option.is_some()
                         || container_default
                         || field_attrs.serde.default
+                        || field_attrs.serde.skip_deserializing /* written, never read: filled by Default */
                         || field_attrs.serde.skip_serializing_if.is_some();
 
                     let mut property_schema = {
@@ -268,7 +268,6 @@ pub(super) fn derive_schema(input: TokenStream) -> syn::Result<TokenStream> {
 
                     if field_attrs.serde.skip
                     || field_attrs.serde.skip_serializing
-                    || field_attrs.serde.skip_deserializing
                     {
                         continue
                     }
@@ -320,9 +319,15 @@ pub(super) fn derive_schema(input: TokenStream) -> syn::Result<TokenStream> {
 
             let mut variant_names = Vec::with_capacity(variants.len());
             for v in variants.iter() {
+                let variant_attrs = VariantAttributes::new(&v.attrs)?;
+
+                if variant_attrs.serde.skip
+                || variant_attrs.serde.skip_serializing
+                {
+                    continue
+                }
+
                 variant_names.push({
-                    let variant_attrs = VariantAttributes::new(&v.attrs)?;
-                    
                     let (mut name, mut name_span) = (v.ident.unraw().to_string(), v.ident.span());
                     if let Some((span, case)) = container_attrs.serde.rename_all.value()? {
                         (name, name_span) = (case.apply_to_variant(&name), span);
@@ -348,7 +353,6 @@ pub(super) fn derive_schema(input: TokenStream) -> syn::Result<TokenStream> {
 
                 if variant_attrs.serde.skip
                 || variant_attrs.serde.skip_serializing
-                || variant_attrs.serde.skip_deserializing
                 || variant_attrs.serde.skip_serializing_if.is_some()
                 {
                     continue
